@@ -148,7 +148,7 @@ func init() {
 	engine.Register(&engine.Prop{
 		ID: "C13", Level: "exploration", World: "fleet",
 		QuickRuns: 12000, ThoroughRuns: 1000000,
-		Generate: GenFleet(&fleetProfile{prop: "C13", stores: allKinds, roles: []string{"sketch", "exact"}, minNodes: 1, maxNodes: 3,
+		Generate: GenFleet(&fleetProfile{prop: "C13", stores: allKinds, roles: []string{"sketch", "exact"}, minNodes: 1, maxNodes: 3, shareMap: true, intruder: true,
 			weights: []string{"unit", "int", "frac"}, valueSigns: []string{"pos", "neg", "mixed", "zeros"},
 			ops: map[string]int{"add": 30, "addw": 15, "copy": 2, "clear": 6, "reweight": 2}, queryEvery: 0, maxOps: 60, extra: badClient}),
 		Execute: ExecFleet,
